@@ -545,6 +545,13 @@ func init() {
 			e.crcApps = append(e.crcApps, crcApp{cur, t})
 			return t
 		},
+		// loops until the random tag is non-zero: modelled as an arbitrary non-zero value
+		hname("generateInitiateTag"): func(e *Engine, fn *ssa.Function, a []Value) Value {
+			e.rndSeq++
+			t := e.newVar(fmt.Sprintf("tag%d", e.rndSeq), BV(32))
+			e.addPC(e.ts.Not(e.ts.Eq(t, e.ts.BVConst(32, 0))))
+			return t
+		},
 		"hash/crc32.Update": func(e *Engine, fn *ssa.Function, a []Value) Value {
 			e.crcSeq++
 			return e.newVar(fmt.Sprintf("crc%d", e.crcSeq), BV(32))
